@@ -14,6 +14,7 @@ TRUSTED_BASE = [
   'vk/translate.py (T1: Python AST -> Lean for the scalar kernels) and DK/Lemmas/Bridge.lean',
   'vk/translate_vec.py (T1v: Python AST -> Lean index functions for the whitelisted vector method bodies; numpy broadcasting / shape inference as the translator models it) and DK/Lemmas/BridgeVec.lean',
   'vk/translate_sets.py (T1s: Python AST -> Lean list terms over abstract child records for the set-level glue of DeviceSet / MFDeviceSet / TwoRatioMFDeviceSet / SubBalancedDeviceSet / BaseDevice.map; flat <-> (row, slot) reshapes as the identity) and DK/Lemmas/BridgeSets/*.lean',
+  'vk/translate_loaders.py (T1l: Python AST -> Lean `Except LoadErr` programs for run_to_array / run_to_cbounds_array / load_cbounds / the bounds slice of every load_<kind>_device / parameter_map tables / care2bounds / on2bounds; a JSON object with canonical decimal keys as an association list, `for` as List.foldlM, numpy arrays as index functions) and DK/Lemmas/BridgeLoaders/*.lean',
   'vk correspondence harness (T2): same JSON description drives the real classes and the Lean model at exact rationals',
   'IEEE-754 rounding, numpy broadcasting/reshape, SciPy SLSQP and numdifftools are modelled or parameters, not verified',
 ]
